@@ -34,6 +34,13 @@ pub struct Scn {
     /// Empty = one stream throughout (the one of `category`).
     #[serde(default)]
     pub streams: Vec<u8>,
+    /// single-stream NOERROR histories: 0 = A at www (answer only), 1 = a referral with glue
+    /// (authority + additional), 2 = MX at the apex (answer + additional address)
+    #[serde(default)]
+    pub qvar: u8,
+    /// every request is TSIG-signed: full and slipped responses alike must carry a verifying TSIG RR
+    #[serde(default)]
+    pub signed: bool,
 }
 pub struct C26;
 
@@ -153,7 +160,7 @@ impl Prop for C26 {
                 streams.push(cur);
             }
         }
-        Scn { rates, window, slip: *pick(r, &[0usize, 0, 1, 1, 2, 7]), category, gaps_ns, hash_key: r.next(), table_size, edns: chance(r, 30), streams }
+        Scn { rates, window, slip: *pick(r, &[0usize, 0, 1, 1, 2, 7]), category, gaps_ns, hash_key: r.next(), table_size, edns: chance(r, 30), qvar: if streams.is_empty() && category == 0 && chance(r, 30) { 1 + r.below(2) as u8 } else { 0 }, signed: chance(r, 15), streams }
     }
     fn plan(r: &mut SplitMix, _scn: &Scn) -> ExecPlan {
         ExecPlan { seed: r.next(), strategy: Strategy::Random, clock: ClockPolicy::Des, max_steps: 200_000 }
@@ -207,6 +214,12 @@ impl Prop for C26 {
             c.slip = 0;
             out.push(c);
         }
+        if s.signed {
+            out.push(Scn { signed: false, ..s.clone() });
+        }
+        if s.qvar != 0 {
+            out.push(Scn { qvar: 0, ..s.clone() });
+        }
         out
     }
     fn nontrivial(s: &Scn, _rec: &ExecRecord) -> bool {
@@ -221,7 +234,7 @@ impl Prop for C26 {
         h
     }
     fn rule() -> String {
-        "one execution = one request-time history of 5-60 UDP queries of a single response stream (NOERROR / NXDOMAIN / REFUSED category, each with its own rate), gaps drawn from {0, sub-second, 1s-1ns, 1s, 1s+1ns, k s, window, window+-1, hours, 10^6..10^9 s, around 2^32/rate s}; rates 1..2^31/window, window 1..60, slip {0,1,2,7}; the simulated clock advances by exactly the gap; every step is compared with a u128 reference bucket. In a fifth of the histories 2-3 streams (two NOERROR names, NXDOMAIN, REFUSED; each category with its own rate) take turns in the single slot of a size-1 table and the reference models the documented take-over. Non-trivial = history contains a gap >= 1 s after the first request; distinct = distinct scenario".into()
+        "one execution = one request-time history of 5-60 UDP queries of a single response stream (NOERROR / NXDOMAIN / REFUSED category, each with its own rate), gaps drawn from {0, sub-second, 1s-1ns, 1s, 1s+1ns, k s, window, window+-1, hours, 10^6..10^9 s, around 2^32/rate s}; rates 1..2^31/window, window 1..60, slip {0,1,2,7}; the simulated clock advances by exactly the gap; every step is compared with a u128 reference bucket; the limited question is an address answer, a referral with glue or an MX answer with additional data, and in a seventh of the histories every request is TSIG-signed (full and slipped responses must then carry a verifying TSIG RR). In a fifth of the histories 2-3 streams (two NOERROR names, NXDOMAIN, REFUSED; each category with its own rate) take turns in the single slot of a size-1 table and the reference models the documented take-over. Non-trivial = history contains a gap >= 1 s after the first request; distinct = distinct scenario".into()
     }
     fn assumptions() -> Vec<String> {
         vec![
@@ -240,7 +253,7 @@ impl Prop for C26 {
         "E3 simrt-sequential"
     }
     fn expected_probes() -> Vec<&'static str> {
-        vec!["c26_limited", "c26_refill_partial", "c26_refill_to_empty", "c26_gap_over_2pow32_div_rate", "c26_subsecond_carry", "c26_slot_taken_over", "c26_overflowing_parameters_refused"]
+        vec!["c26_limited", "c26_refill_partial", "c26_refill_to_empty", "c26_gap_over_2pow32_div_rate", "c26_subsecond_carry", "c26_slot_taken_over", "c26_overflowing_parameters_refused", "c26_slipped_response_signed", "c26_full_response_signed"]
     }
 }
 
@@ -267,6 +280,12 @@ fn run(scn: &Scn) {
     p.set_slip(scn.slip);
     p.set_size(scn.table_size).expect("size");
     server.set_rrl_params(Some(p));
+    let secret: Vec<u8> = (0..32u8).map(|b| b.wrapping_mul(7) ^ 0x5a).collect();
+    if scn.signed {
+        let mut map = quandary::server::TsigKeyMap::new();
+        map.insert(qz::qname("k.example."), (quandary::message::tsig::Algorithm::HmacSha256, secret.clone().into_boxed_slice()));
+        server.set_tsig_keys(std::sync::Arc::new(map));
+    }
     let src = IpAddr::V4(Ipv4Addr::new(198, 51, 100, 7));
     let mut buf = vec![0u8; 2048];
 
@@ -321,8 +340,28 @@ fn run(scn: &Scn) {
                 true
             }
         };
-        let msg = wire::query_full(i as u16, &wire::name(qn), wire::T_A, wire::C_IN, 0, if scn.edns { Some(1232) } else { None });
+        let (qn, qt) = match (stream, scn.qvar) {
+            (0, 1) => ("deep.sub.example.", wire::T_A),
+            (0, 2) => ("example.", wire::T_MX),
+            _ => (qn, wire::T_A),
+        };
+        let mut msg = wire::query_full(i as u16, &wire::name(qn), qt, wire::C_IN, 0, if scn.edns { Some(1232) } else { None });
+        let mut req_mac = vec![];
+        if scn.signed {
+            let spec = crate::tsigref::SignSpec { key_name: wire::name("k.example."), alg: crate::tsigref::Alg::Sha256, alg_name: crate::tsigref::Alg::Sha256.name(), secret: secret.clone(), time: simrt::time::wall_secs(), fudge: 300, mac_len: None };
+            (msg, req_mac) = crate::tsigref::sign_request(&msg, &spec);
+        }
         let got = qz::ask_buf(&server, &msg, src, Transport::Udp, &mut buf);
+        if let (true, Some(n)) = (scn.signed, got) {
+            // signed requests: whatever the limiter decides, a response that is sent is signed
+            let resp = buf[..n].to_vec();
+            let tc = wire::decode(&resp).map(|m| m.tc()).unwrap_or(false);
+            if let Err(e) = crate::tsigref::verify_response(&resp, &req_mac, crate::tsigref::Alg::Sha256, &secret) {
+                viol(if tc { "slipped-response-lost-its-tsig" } else { "signed-request-unsigned-response" }, format!("step {i}: the request was correctly signed; the response's TSIG does not verify: {e}"));
+                break;
+            }
+            simrt::probe(if tc { "c26_slipped_response_signed" } else { "c26_full_response_signed" });
+        }
         // classify
         let (full, slipped) = match got {
             None => (false, false),
